@@ -8,7 +8,11 @@ ENGINE = "xmltb"
 LEAN_TARGETS = ["H5V.Props.C16"]
 AUDIT_IMPORTS = ["H5V.Props.C16"]
 THEOREMS = ["H5V.Props.C16." + t for t in [
-]]
+    "C16_balance", "C16_no_panic", "C16_script_root_unbalanced",
+    "C16_resolve_partial", "C16_resolve_fixed", "C16_witness_prefixed_xmlns", "C16_witness_dup_decl",
+    "C16_attrs_sublist", "C16_attr_dropped_only_if", "C16_isDeclLike_is_decl", "C16_isDeclLike_fixed",
+    "C16_tok_dropped_only_if_partial", "C16_tok_dropped_only_if_fixed", "C16_tok_no_dup_qname_fixed",
+    "C16_witness_item14", "C16_witness_dup_decl_reversed"]]
 TRUSTED = [
     "Lean 4 kernel; axioms ⊆ {propext, Classical.choice, Quot.sound} (audited per run)",
     "hand-written model lean/H5V/Model/XmlTB.lean of xml5ever/src/tree_builder/mod.rs (token level) and of the "
@@ -21,6 +25,8 @@ TRUSTED = [
 ]
 ASSUMPTIONS = [
     "tokens reach the tree builder with ns = \"\" in every QualName (what the xml5ever tokenizer produces)",
+    "tok-mode oracle: tags with two attributes of one qualified name are not judged (a tokenizer that removes "
+    "duplicates never emits them; on the pinned tree `xmlns:p` twice does get through — judged in src mode)",
     "spec choices where the property is silent: unbound or un-declared prefix ⇒ empty namespace (upstream reports a "
     "parse error); declarations with the xmlns URI as value or for the prefixes xml/xmlns have no effect; a "
     "declaration on an end tag is visible to that end tag's own name; any other prefix may be bound to the xml URI",
@@ -271,22 +277,60 @@ def tokens_of(line):
     return [t[:3] for t in X.dec_tokens(f[3], raw=True)]
 
 
+FAM_ITEM14 = "[item 14] attribute dropped: its raw name equals the LOCAL part of an earlier attribute (tokenizer duplicate test) — "
+FAM_PXMLNS = "[p:xmlns] attribute dropped: a prefixed attribute with local name xmlns is taken for a declaration — "
+FAM_DUPDECL = "[item 14 / duplicate declaration] a prefix declared twice in one tag: the later declaration wins — "
+FAM_DECLLOST = "[item 14 / declaration lost] xmlns declaration dropped as a duplicate of an earlier p:xmlns attribute — "
+FAM_OTHER_NS = "[namespace] "
+FAM_OTHER_ATTR = "[attribute] "
+
+
+def has_dup_qname(toks):
+    for t in toks:
+        if t[0] in "SME":
+            names = [n for n, _ in t[2]]
+            if len(set(names)) != len(names):
+                return True
+    return False
+
+
+def ns_family(toks):
+    for t in toks:
+        if t[0] in "SME":
+            keys = [X.decl_of(n, v) for n, v in t[2] if X.is_decl(n)]
+            raw = [n for n, v in t[2] if X.is_decl(n)]
+            if len(set(raw)) != len(raw):
+                return FAM_DUPDECL
+            seen_local_xmlns = False
+            for n, v in t[2]:
+                if n == (None, "xmlns") and seen_local_xmlns:
+                    return FAM_DECLLOST
+                if n[1] == "xmlns" and n[0] is not None:
+                    seen_local_xmlns = True
+    return FAM_OTHER_NS
+
+
 def oracle(line, out):
     if out is None or out.startswith("PANIC") or out.startswith("ABORT"):
         return "implementation crashed: %s" % out
     if out.startswith("bad-"):
         return "harness rejected the case: %s" % out
+    mode = line.split("\t")[1]
     toks = tokens_of(line)
+    if mode == "tok" and has_dup_qname(toks):
+        # a tag with two attributes of one qualified name cannot come out of a tokenizer that removes
+        # duplicates; fed directly it is outside the statement (see ASSUMPTIONS)
+        return None
     want = X.resolve(toks)
     got = list(X.preorder(X.parse_dump(X.parse_out(out)["tree"])))
     if len(got) != len(want):
-        return "number of created elements: got %d want %d" % (len(got), len(want))
+        return ns_family(toks) + "number of created elements: got %d want %d" % (len(got), len(want))
     for i, ((gd, ge), (wd, wn, wattrs)) in enumerate(zip(got, want)):
         gn = (ge.prefix, ge.ns, ge.local)
         if gn != wn:
-            return "element namespace: element #%d is %s, lexical scoping gives %s" % (i, X.show_name(gn), X.show_name(wn))
+            return ns_family(toks) + "element #%d is %s, lexical scoping gives %s" % (i, X.show_name(gn), X.show_name(wn))
         if gd != wd:
-            return "element nesting: element #%d %s at depth %d, want %d" % (i, X.show_name(gn), gd, wd)
+            return ns_family(toks) + "element #%d %s at depth %d, want %d" % (i, X.show_name(gn), gd, wd)
         # attributes: kept ones = subsequence of the resolved non-declaration attributes
         cand = [(n, v) for n, v, isdecl in wattrs if not isdecl]
         j = 0
@@ -295,7 +339,7 @@ def oracle(line, out):
             while j < len(cand) and cand[j] != ga:
                 j += 1
             if j == len(cand):
-                return "attribute namespace/order: element #%d %s carries %s=%r, resolved attributes are %s" % (
+                return ns_family(toks) + "element #%d %s carries %s=%r, resolved attributes are %s" % (
                     i, X.show_name(gn), X.show_name(ga[0]), ga[1], [(X.show_name(n), v) for n, v in cand])
             kept_idx.append(j)
             j += 1
@@ -307,7 +351,13 @@ def oracle(line, out):
                 continue
             pos = nondecl_pos[ci]
             if not any(m[1:] == n[1:] for m, _ in allattrs[:pos]):
-                return "attribute dropped: element #%d %s lost %s=%r although no earlier attribute has that expanded name" % (
+                if n[2] == "xmlns" and n[0] is not None:
+                    fam = FAM_PXMLNS
+                elif mode == "src" and any(m[2] == (n[2] if n[0] is None else n[0] + ":" + n[2]) for m, _ in allattrs[:pos]):
+                    fam = FAM_ITEM14
+                else:
+                    fam = FAM_OTHER_ATTR
+                return fam + "element #%d %s lost %s=%r although no earlier attribute has that expanded name" % (
                     i, X.show_name(gn), X.show_name(n), v)
     return None
 
@@ -326,9 +376,10 @@ def _detail_starts(prefix):
     return lambda f: (f.detail or "").startswith(prefix)
 
 
-# ids the main session may enter into known_findings.json (kind "known")
+# ids the main session may enter into known_findings.json (kind "known") until the fixes land
 KNOWN_MATCHERS = {
-    "F14-attr-dropped": _detail_starts("attribute dropped"),
-    "F14-element-ns": _detail_starts("element namespace"),
-    "F14-attr-ns": _detail_starts("attribute namespace/order"),
+    "F14-attr-dropped": _detail_starts("[item 14] "),
+    "F14-dup-decl": _detail_starts("[item 14 / duplicate declaration]"),
+    "F14-decl-lost": _detail_starts("[item 14 / declaration lost]"),
+    "F16-pxmlns": _detail_starts("[p:xmlns]"),
 }
